@@ -32,7 +32,37 @@ class Scenario:
             return -1 if v[2] == "None" else self.num(v[3][0][1])
         if v is not None and v[0] == "adt" and v[3] and len(v[3]) == 1:
             return self.num(v[3][0][1])  # newtype around an integer (js_int::Int)
-        return self._lookup(self.ints, D.show(v))
+        txt = D.show(v)
+        got = self._lookup(self.ints, txt)
+        if got is None:
+            got = self._minmax(txt)
+        return got
+
+    def _minmax(self, txt):
+        """Ord::min(X, Y) / Ord::max(X, Y) over terms the table knows (top-level comma split)."""
+        m = re.match(r"^Ord::(min|max)\((.*)\)$", txt)
+        if not m:
+            return None
+        inner, depth, cut = m.group(2), 0, None
+        for i, ch in enumerate(inner):
+            depth += ch in "([{"
+            depth -= ch in ")]}"
+            if ch == "," and depth == 0:
+                cut = i
+                break
+        if cut is None:
+            return None
+        vals = []
+        for part in (inner[:cut].strip(), inner[cut + 1:].strip()):
+            x = self._lookup(self.ints, part)
+            if x is None:
+                x = self._minmax(part)
+            if x is None and re.fullmatch(r"-?\d+", part):
+                x = int(part)
+            if x is None:
+                return None
+            vals.append(x)
+        return min(vals) if m.group(1) == "min" else max(vals)
 
     def __call__(self, atom):
         k = atom[0]
